@@ -248,6 +248,36 @@ def driveC15 (args : List String) : String :=
     " ".intercalate outs
   | _ => "bad-op"
 
+def behOf (stream : Bool) (layer : Nat) (c : Char) : Option InterceptClient.Interceptor :=
+  if c == 'p' then some (InterceptClient.logPass stream layer)
+  else if c == 's' then some (InterceptClient.logShort stream layer)
+  else if c == 'a' then some (InterceptClient.logAlter stream layer)
+  else none
+
+def driveC17 (args : List String) : String :=
+  match args with
+  | [kind, base, layers] =>
+    let stream := kind == "stream"
+    let baseKind := (base.drop 5).toString
+    let b : InterceptClient.Chan := .base (baseKind == "grpc") 0
+    let specs := ((layers.drop 7).toString.splitOn ",")
+    let (ch, _) := specs.foldl (fun (acc : InterceptClient.Chan × Nat) sp =>
+      let (ch, i) := acc
+      let cs := sp.toList
+      let u := behOf false i (cs.getD 0 '-')
+      let s := behOf true i (cs.getD 1 '-')
+      (InterceptClient.intercept ch u s, i + 1)) (b, 0)
+    let mname := if stream then "/grpchantesting.TestService/BidiStream" else "/grpchantesting.TestService/Unary"
+    let (evs, res) := if stream then InterceptClient.newStream ch ⟨0, 0⟩ else InterceptClient.invoke ch ⟨0, 0⟩
+    let showEv : InterceptClient.Ev → Option String
+      | .int st l cc c =>
+        let ccs := match cc with | some _ => "root" | none => "nil"
+        some s!"int{if st then "S" else "U"}({l},cc={ccs},{mname},opts={c.opts})"
+      | .base st _ c => if baseKind == "rec" then some s!"base{if st then "S" else "U"}({mname},opts={c.opts})" else none
+    let body := " ".intercalate (evs.filterMap showEv)
+    body ++ " =>" ++ (if res == 0 then "ok" else "short")
+  | _ => "bad-op"
+
 def dispatch (line : String) : String :=
   match (line.splitOn " ").filter (· ≠ "") with
   | "C14" :: rest => driveC14 rest
@@ -257,6 +287,7 @@ def dispatch (line : String) : String :=
   | "C11" :: rest => driveC11 rest
   | "C13" :: rest => driveC13 rest
   | "C15" :: rest => driveC15 rest
+  | "C17" :: rest => driveC17 rest
   | _ => "bad-op"
 
 partial def loop (h : IO.FS.Stream) (out : IO.FS.Stream) : IO Unit := do
